@@ -525,6 +525,25 @@ def tricky_unknown_ids(ids):
     return out
 
 
+# canonically equivalent but DISTINCT texts (NFC spelling, NFD spelling): the library keeps them apart as two IDs
+NORMALISATION_PAIRS = [("caf\u00e9", "cafe\u0301"), ("\u00c5ngstr\u00f6m", "A\u030angstro\u0308m"), ("\u03a9hm", "\u2126hm"),
+                       ("\ud55c", "\u1112\u1161\u11ab"), ("\u00f1u", "n\u0303u")]
+
+# texts that trip naive text handling: format-string characters, quoting, line separators other than LF
+NASTY_TEXTS = ["50%", "x%%y", "otu_%s", "%(id)s", "\"quoted\" start", "\"unbalanced", "a'b",
+               "ls\u2028x", "ps\u2029x", "nel\u0085x", "ff\x0cx", "vt\x0bx", "{brace}", "back\\slash", "#hash", " lead", "trail "]
+
+
+def twin_ids(rng, k=1):
+    """k pairs of canonically equivalent, distinct ID texts (both members of a pair are meant to sit on ONE axis)"""
+    pairs = list(NORMALISATION_PAIRS)
+    rng.shuffle(pairs)
+    out = []
+    for a, b in pairs[:k]:
+        out += [a, b]
+    return out
+
+
 def wide_spec(rng, n_axis=None, other=None, axis="sample", classes=("count",), md=False):
     """a table with many IDs on one axis (size-dependent fast paths: thresholds such as 64 IDs)"""
     n_axis = n_axis or rng.choice([64, 70, 100, 130])
